@@ -214,7 +214,7 @@ impl Model {
             None => {
                 self.expected.push(Expect::Ctx {
                     cmd: "connect",
-                    res: ResPat::Exact("Err:CodecError".into()),
+                    res: ResPat::AnyErr, // "refused with an error": which one is not prescribed
                 });
                 self.ctx = CtxSt::Idle;
             }
@@ -230,7 +230,7 @@ impl Model {
             None => {
                 self.expected.push(Expect::Ctx {
                     cmd: "authorize",
-                    res: ResPat::Exact("Err:CodecError".into()),
+                    res: ResPat::AnyErr, // "refused with an error": which one is not prescribed
                 });
                 self.ctx = CtxSt::Idle;
             }
@@ -866,7 +866,7 @@ impl Model {
                 if !valid {
                     self.expected.push(Expect::Done {
                         op,
-                        res: ResPat::Exact("Err:CodecError".into()),
+                        res: ResPat::AnyErr, // "refused with an error": which one is not prescribed
                     });
                     self.ops[op].st = St::Done;
                     self.live_handles -= 1;
@@ -964,18 +964,14 @@ impl Model {
                 Ok(())
             }
             WirePat::Pubrel { pid } => {
-                let want = CPacket::Pubrel(Ack {
-                    pid: *pid,
-                    reason: 0,
-                    props: vec![],
-                });
-                if &want != got {
-                    return Err(Mismatch {
+                // type and identifier are prescribed; reason / properties of the PUBREL are not
+                match got {
+                    CPacket::Pubrel(a) if a.pid == *pid => Ok(()),
+                    _ => Err(Mismatch {
                         rule: "wire-mismatch:PUBREL".into(),
-                        detail: format!("expected {:?}\n got      {:?}", want, got),
-                    });
+                        detail: format!("expected PUBREL with packet id {}\n got      {:?}", pid, got),
+                    }),
                 }
-                Ok(())
             }
             WirePat::Ack { ty, pid } => {
                 let ok = match (ty, got) {
